@@ -93,6 +93,10 @@ def make_iter(ex, node, st):
                 st2.assume(S.has_type(t, et, st2.next_ref))
                 return V(t, et)
             return Iter(z3.Length(seq), elem, seq, None, 'tuple')
+    if k == 'opaque' and ty.name in ex.reg.opaque_iter:
+        fn = ex.reg.opaque_iter[ty.name]
+        ex.used_trusted.add(fn.trusted_name)
+        return fn(ex, st, V(v.t, ty))
     if k == 'any' and getattr(ex, 'lenient', False):
         seq = S.fresh('uk_iter', S.SeqP())
         ex.notes.append(f'lenient: iteration over a value of unknown type ({desc}) as an arbitrary sequence')
